@@ -166,6 +166,16 @@ func runC10(c *fw.Ctx, idx int) fw.Result {
 	if got != exp.String() {
 		res.Fail("list-mismatch", "updown list output differs from the run/SNP model: "+firstDiff(exp.String(), got), files, argv)
 	}
+	if idx%25 == 4 {
+		useStdin := idx%2 == 0
+		binSample(c, &res, idx, "updown-list", map[string]string{"ref.fasta": refText, "aln.fasta": aln}, func(p func(string) string) []string {
+			a := []string{"updown", "list", "-r", p("ref.fasta")}
+			if !useStdin {
+				a = append(a, "-q", p("aln.fasta"))
+			}
+			return a
+		}, map[bool][]byte{true: []byte(aln), false: nil}[useStdin], map[bool]string{true: "", false: "-o"}[idx%3 == 0], got)
+	}
 	// reconstruction monitor: rebuild each sequence from the observed row
 	lines := strings.Split(strings.TrimSuffix(got, "\n"), "\n")
 	if len(lines) == n+1 {
